@@ -16,8 +16,9 @@ Starts == {i \in 1..Len(Trace) : Trace[i].ev = "Scenario"}
 
 GroupRec(r) ==
   [ex |-> r.ex = 1,
-   d |-> [name |-> r.name, min |-> r.min, prio |-> r.prio, preempt |-> r.preempt, sub |-> r.sub, owner |-> r.owner, topo |-> r.topo],
-   f |-> [queue |-> r.queue, mark |-> r.mark, backoff |-> r.backoff, nodepool |-> r.nodepool]]
+   d |-> [name |-> r.name, min |-> r.min, prio |-> r.prio, preempt |-> r.preempt, sub |-> r.sub, owner |-> r.owner, topo |-> r.topo,
+          ol |-> r.ol, oa |-> r.oa],
+   f |-> [queue |-> r.queue, mark |-> r.mark, backoff |-> r.backoff, nodepool |-> r.nodepool, stamp |-> r.stamp]]
 
 NG(i) == Len(Trace[i].exp)
 
@@ -29,7 +30,8 @@ TraceInit ==
     /\ extra = 0
     /\ ann = [p \in 1..Len(Trace[i].grp) |-> ""] /\ lab = [p \in 1..Len(Trace[i].grp) |-> ""]
     /\ done = [p \in 1..Len(Trace[i].grp) |-> FALSE]
-    /\ dirty = [g \in 1..NG(i) |-> FALSE]
+    /\ dirty = [g \in 1..NG(i) |-> FALSE] /\ odirty = [g \in 1..NG(i) |-> FALSE]
+    /\ ov = [l |-> 0, a |-> 0]
     /\ fc = [g \in 1..NG(i) |-> [f \in Fields |-> 0]]
     /\ steps = 0 /\ last = NoLast /\ derr = ""
 
@@ -48,10 +50,11 @@ TraceReconcile ==
      IN /\ Logged(e)
         /\ done' = [done EXCEPT ![p] = TRUE]
         /\ dirty' = [dirty EXCEPT ![g] = FALSE]
+        /\ odirty' = [odirty EXCEPT ![g] = FALSE]
         /\ last' = [n |-> "Reconcile", p |-> p, g |-> g, f |-> "", wpg |-> e.wpg, wpod |-> e.wpod, wother |-> e.wother,
                     idem |-> done[p] /\ ~dirty[g]]
   /\ steps' = steps + 1 /\ l' = l + 1
-  /\ UNCHANGED <<grp, exp, expsub, fc, l0>>
+  /\ UNCHANGED <<grp, exp, expsub, fc, ov, l0>>
 
 TraceForeign ==
   /\ l <= Len(Trace) /\ Trace[l].ev = "Foreign"
@@ -61,9 +64,20 @@ TraceForeign ==
         /\ dirty' = [dirty EXCEPT ![e.g] = TRUE]
         /\ last' = [n |-> "Foreign", p |-> 0, g |-> e.g, f |-> e.f, wpg |-> 0, wpod |-> 0, wother |-> 0, idem |-> FALSE]
   /\ steps' = steps + 1 /\ l' = l + 1
-  /\ UNCHANGED <<grp, exp, expsub, done, l0>>
+  /\ UNCHANGED <<grp, exp, expsub, done, ov, odirty, l0>>
 
-TraceNext == TraceReconcile \/ TraceForeign
+TraceOwner ==
+  /\ l <= Len(Trace) /\ Trace[l].ev = "Owner"
+  /\ LET e == Trace[l]
+     IN /\ Logged(e)
+        /\ ov' = [ov EXCEPT ![e.f] = e.k]
+        /\ dirty' = [g \in 1..Len(dirty) |-> TRUE]
+        /\ odirty' = [g \in 1..Len(odirty) |-> TRUE]
+        /\ last' = [n |-> "Owner", p |-> 0, g |-> 0, f |-> e.f, wpg |-> 0, wpod |-> 0, wother |-> 0, idem |-> FALSE]
+  /\ steps' = steps + 1 /\ l' = l + 1
+  /\ UNCHANGED <<grp, exp, expsub, done, fc, l0>>
+
+TraceNext == TraceReconcile \/ TraceForeign \/ TraceOwner
 TraceSpec == TraceInit /\ [][TraceNext]_tvars
 
 \* ---- drift monitors: the trace is well formed and the harness did what the schedule says ----
@@ -73,7 +87,9 @@ D_Shape == /\ Len(pg) = Len(exp) /\ Len(ann) = Len(grp) /\ Len(lab) = Len(grp) /
 D_ForeignApplied ==
   last.n = "Foreign" => /\ pg[last.g].ex
                         /\ pg[last.g].f[last.f] = FVal(last.f, fc[last.g][last.f])
-D_Consumed == (l <= Len(Trace) /\ Trace[l].ev # "Scenario") => Trace[l].ev \in {"Reconcile", "Foreign"}
+\* an owner change itself touches no PodGroup
+D_OwnerOnly == [][Trace[l].ev = "Owner" => pg' = pg]_tvars
+D_Consumed == (l <= Len(Trace) /\ Trace[l].ev # "Scenario") => Trace[l].ev \in {"Reconcile", "Foreign", "Owner"}
 
 \* ---- the action property over the recorded steps ----
 C18_ForeignPreservedTrace == [][C18_ForeignPreservedStep]_tvars
